@@ -45,6 +45,11 @@ def classify(program, diffs, trig_hits, findings, prop):
         anc = ancestors(program, d["stmt"])
         sym = symptom_of(d)
         matched = None
+        # engine finding D51 (Polars 1.44 folds value-free sub-expressions to scalars and then refuses to
+        # broadcast them): identified by the engine's own message, wherever the folded expression sits
+        if d.get("exc") == "InvalidOperationError" and "doesn't match the DataFrame height" in (d.get("msg") or "") and "D51" in by_fid:
+            known.setdefault("D51", []).append(d)
+            continue
         for fid, sids in trig_hits.items():
             f = by_fid.get(fid)
             if f is None:
